@@ -67,7 +67,7 @@ def _insert(node, patch_):
 
     if not _is_int(index):
         raise Exception("Index is not a number: %s %s" % (node.name, patch_))
-    index = int(index)
+    index = max(-len(node.members), min(int(index), len(node.members)))
 
     node.members.insert(index, model.StructMember(name, tp))
     return node
